@@ -16,6 +16,7 @@ type Block struct {
 	Del []int  `json:"del,omitempty"` // slots to delete, in request order
 	Add int    `json:"add,omitempty"` // number of leaves appended
 	Rem []int  `json:"rem,omitempty"` // ascending indexes (within the adds) to remember
+	Prune []int `json:"prune,omitempty"` // slots a partial map forest is asked to Prune right before this block (remembered, live)
 	Salt int   `json:"salt,omitempty"` // branch id: added leaves hash as LeafHash(Salt*1e6+slot), so that leaves re-added on another branch after an undo differ
 	DM  string `json:"dm,omitempty"`  // deletion mode that produced Del (coverage label)
 	AM  string `json:"am,omitempty"`  // addition mode that produced Add (coverage label)
@@ -44,7 +45,7 @@ func genRows(t *rapid.T, label string) int {
 }
 
 func genMapCfg(t *rapid.T, label string) Cfg {
-	return Cfg{Kind: "map", Full: rapid.Bool().Draw(t, label+"-full"), Rows: genRows(t, label+"-rows")}
+	return Cfg{Kind: "map", Full: rapid.Bool().Draw(t, label+"-full"), Rows: genRows(t, label+"-rows"), Direct: rapid.Bool().Draw(t, label+"-direct")}
 }
 
 func subsetP(t *rapid.T, xs []int, num, den int, label string) []int {
@@ -302,4 +303,38 @@ func shapeOf(before *model.Forest, b Block) blockShape {
 		}
 	}
 	return s
+}
+
+// addPrunes decorates a history with Prune requests: before some blocks a partial forest is asked
+// to forget a drawn subset of the leaves it remembers at that point (block Rem flags minus
+// deletions minus earlier prunes). Roots, proofs of the remaining leaves and later blocks must
+// not be affected.
+func addPrunes(t *rapid.T, blocks []Block) {
+	tracked := map[int]bool{}
+	n := 0
+	for i := range blocks {
+		b := &blocks[i]
+		if i > 0 && len(tracked) > 0 && rapid.IntRange(0, 2).Draw(t, "prune-here") == 0 {
+			var l []int
+			for s := range tracked {
+				l = append(l, s)
+			}
+			sort.Ints(l)
+			pr := subsetP(t, l, 1, 2, "prune")
+			if len(pr) == 0 {
+				pr = l[:1]
+			}
+			b.Prune = permute(t, pr, "pruneperm")
+			for _, s := range b.Prune {
+				delete(tracked, s)
+			}
+		}
+		for _, d := range b.Del {
+			delete(tracked, d)
+		}
+		for _, r := range b.Rem {
+			tracked[n+r] = true
+		}
+		n += b.Add
+	}
 }
